@@ -266,6 +266,30 @@ CLAIMED = {
         technique="Coq proof (WF of generators and affine maps; affine invariance by induction on the degree) + correspondence by vm_compute",
         note="Float clause is a test (sweep over n and random draws), not a theorem. The draw of random() is not reproduced; "
              "its spacing is read back from the result."),
+    "C19": dict(
+        text="On the piecewise-linear class (degree-1 curves with simple knots, planar or spatial) the library's Newton iteration "
+             "is exact after one step, and the exact model (per piece clamp((P-A).(B-A)/|B-A|^2), candidates, exact ties) is "
+             "compared with the implementation within 1e-6 as a set of parameters; independently Coq checks the property on the "
+             "returned floats: non-empty, sorted, inside [umin,umax], every returned parameter within 1e-6 (in distance, via "
+             "rational square-root bounds) of the exact minimum over all pieces; curve unchanged. Points on the curve, beyond "
+             "the ends, far away and exact ties are generated.",
+        design="7/C19",
+        technique="Coq proof (exact polyline model; minimality per piece by convexity) + correspondence within rounding by vm_compute",
+        note="PART: general curved pieces (floating Newton from 5 starts) are outside the model and not claimed to be decided; "
+             "theorems about the model are in Proofs/AdvancedProofs.v (in progress at registration). Known finding K5: no "
+             "iteration bound - a zero-length piece makes the loop spin forever; such inputs are kept out of the stream."),
+    "C20": dict(
+        text="Exact model of the intersection of planar polylines (pairwise line intersection with parameter tests, duplicates "
+             "removed) compared with the implementation: every returned pair must lie in both intervals, be a meeting point "
+             "(|A(t)-B(u)| <= 2e-6, exact evaluation of the polylines at the returned floats), be near a meeting point of the "
+             "model, not repeat another pair, and every transversal crossing in the interior of two pieces must be reported; "
+             "curves that do not meet (far apart, near misses down to gap 1e-3, parallel pieces) must give the empty tuple; "
+             "curves unchanged.",
+        design="7/C20",
+        technique="Coq proof (exact segment-intersection model: soundness and completeness for transversal pieces) + correspondence within rounding by vm_compute",
+        note="PART: curved pieces (2-D Newton from a grid of starts) are outside the model; touching at a vertex or end point "
+             "is not promised by the property and may be missed by the library (accepted). Theorems about the model are in "
+             "Proofs/AdvancedProofs.v (in progress at registration)."),
 }
 
 PENDING_REASON = "check not built yet (framework under construction; see DESIGN.md section 7)"
